@@ -631,6 +631,10 @@ def run(ctx):
     from .. import spaces as _spc
 
     _spc.paired_defaults(ctx)  # RWG / SNC and BC / RBC are built from the same options under the same keywords
+    from .. import p1dofs as _p1d, rwgdofs as _rwd
+
+    _p1d.p1_dof_decisions(ctx)  # (tools/wiring.py) DUAL0 / barycentric P1 are built on the coarse P1 dof map, BC / RBC on the coarse RWG one
+    _rwd.rwg_dof_decisions(ctx)
 
 
 REPRESENTATION_DEPENDENT = {"grid", "support", "support_elements", "number_of_support_elements", "local2global", "global2local", "local_multipliers", "normal_multipliers",
